@@ -339,6 +339,8 @@ class Exec(SpecMixin, ExprMixin, CallMixin, BuiltinMixin, StmtMixin):
       for k_, v_ in st.env.items():
         env.setdefault('final_' + k_, v_)
       cx = SpecCtx(env, st.heap, st.pc, self.entry_cx, self.cur_mod)
+      for lm in c.exit_lemmas:
+        st.assume(self.spec_bool(lm, cx))
       for i, e in enumerate(c.ensures):
         self.oblige('ensures/%d' % i, st, self.spec_bool(e, cx), detail=e)
       self.check_frame(st, cx)
